@@ -15,7 +15,7 @@ RULE = ('G-val graph recipes (strings by class, ints, floats incl. specials/rand
         'bool, None, list/dict/set graphs with sharing and cycles) x random option points x {SafeDumper,CSafeDumper} x '
         '{SafeLoader,CSafeLoader}; a case is (recipe, options); non-trivial = contains a str or a container; distinct by '
         'hash of (recipe, options)')
-ASSUMPTIONS = ['NaN is never a dict key or set member', 'ints below the 4300-digit int<->str limit',
+ASSUMPTIONS = ['NaN is never a dict key or set member', 'generated ints stay below the interpreter\'s 4300-digit int<->str limit; ints on both sides of it are probed separately (known finding F24)',
                'no lone surrogates in strings (outside the property\'s universe: Unicode scalar values)']
 LEVEL_TEXT = ('Exploration: a type-strict, identity-aware graph comparison (ref.bisim) decides every executed dump->load '
               'round trip of generated values under generated option points, for all four dumper/loader back-end pairs. '
